@@ -537,7 +537,7 @@ func C05() int {
 	r.Set("rule", "the enumerators of C01 (expression cells over 32-bit boundary valuations, control skeletons: every nesting and sequencing of up to 3 constructs), C02 (function programs), C03 (slice histories, index sweeps incl. two-digit indices) and C04 (traced operand slots) at reduced bounds; each program is transpiled to Batch by the real transpiler and executed under cmdmodel (an executable model of cmd.exe's documented rules, calibrated on every run against the Windows half of the repository's own suite); stdout lines and exit status must equal the 32-bit reference interpreter's. Runs the model refuses to decide are counted as unmodelled, never judged. Distinct by source text.")
 	r.Assumef("no cmd.exe exists in the sandbox: the trusted base is cmdmodel (engine/cmdmodel, ~2900 lines) whose rules are cmd.exe's documented ones and which reproduces the expected output of every modelled Windows test of the repository's suite (calibration result in coverage.calibration)")
 	r.Assumef("agreement with the Bash script follows transitively: C01-C04 compare Bash with the same reference on the same generators")
-	return r.Finish()
+	return finish(r)
 }
 
 func clipN(s string, n int) string {
